@@ -171,7 +171,7 @@ def fuaCont (d : Dec) (seq : UInt16) (b1 : UInt8) (data : Bytes) : Dec × NRes :
     let sz := d.fragmentsSize + data.length
     if sz > maxAU then (d.resetFragments, .err)
     else
-      -- /repo fix fc590d9: a fragment without data is accepted but not stored
+      -- /repo fix f1b05d6: a fragment without data is accepted but not stored
       let d1 : Dec := { d with fragmentsSize := sz,
                                fragments := pushFrag d.fragments data,
                                fragmentNextSeqNum := d.fragmentNextSeqNum + 1 }
@@ -208,7 +208,7 @@ def decodeNALUs0 (d : Dec) (p : Pkt) : Dec × NRes :=
 
 /-- the tail of `decodeNALUs`: the no-NALU check and `removeAnnexB` -/
 def finishNALUs (d1 : Dec) (ns : List Bytes) : Dec × NRes :=
-  if ns.length = 0 then (d1, .err)      -- /repo fix e75535c: an FU-A that holds only start codes
+  if ns.length = 0 then (d1, .err)      -- /repo fix a0e65b7: an FU-A that holds only start codes
   else
     match removeAnnexB d1.annexBMode ns with
     | (m, some ns') => ({ d1 with annexBMode := m }, .nalus ns')
